@@ -47,6 +47,28 @@ __all__ = [
 ]
 
 
+def _keyring_size(duration: float, dt: float) -> int:
+    """
+    Return the number of rows in the keyring matrix for a timed compartment or link
+
+    The duration is rounded up to a whole number of timesteps, with a minimum of one row so that
+    a duration shorter than the step size empties the compartment every timestep. The ratio
+    ``duration/dt`` is snapped to the nearest integer if it is within rounding error of one, so that
+    e.g. a duration of 5/12 with a monthly timestep gives 5 rows (``(5/12)/(1/12)`` evaluates to
+    ``5.000000000000001``, which would otherwise be rounded up to 6).
+
+    :param duration: Duration in years
+    :param dt: Timestep in years
+    :return: Number of rows (at least 1)
+
+    """
+
+    n = duration / dt
+    if abs(n - round(n)) < 1e-9 * max(1.0, abs(n)):
+        n = round(n)
+    return max(1, math.ceil(n))
+
+
 class BadInitialization(Exception):
     """
     Error for invalid conditions
@@ -832,7 +854,7 @@ class TimedCompartment(Compartment):
         self.dt = dt
         assert np.all(self.parameter.vals == self.parameter.vals[0]), "Duration parameter value cannot vary over time"
         duration = self.parameter.vals[0] * self.parameter.timescale * self.parameter.scale_factor
-        self._vals = np.empty((max(1, math.ceil(duration / dt)), tvec.size), order="F")  # Fortran/column-major order should be faster for summing over lags to get `vals`
+        self._vals = np.empty((_keyring_size(duration, dt), tvec.size), order="F")  # Fortran/column-major order should be faster for summing over lags to get `vals`
         self._vals.fill(np.nan)
 
     def resolve_outflows(self, ti: int) -> None:
@@ -1489,11 +1511,10 @@ class TimedLink(Link):
             self._vals = np.empty(self.source._vals.shape, order="F")  # Fortran/column-major order should be faster for summing over lags to get `vals`
         else:
             # Preallocate based on the upstream junction's duration group
-            # Note that the keyring size calculation is duplicated from TimedCompartment, this could be separated into a function if it is needed any more often than this
             parameter = self.pop.par_lookup[self.source.duration_group]
             assert np.all(parameter.vals == parameter.vals[0]), "Duration parameter value cannot vary over time"
             duration = parameter.vals[0] * parameter.timescale * parameter.scale_factor
-            self._vals = np.empty((math.ceil(duration / dt), tvec.size), order="F")  # Fortran/column-major order should be faster for summing over lags to get `vals`
+            self._vals = np.empty((_keyring_size(duration, dt), tvec.size), order="F")  # Fortran/column-major order should be faster for summing over lags to get `vals`
         self._vals.fill(np.nan)
 
     def update(self, ti: int, converted_frac: float) -> None:
